@@ -27,7 +27,7 @@ M('c13-nan-viewbox', 'C13', ('decode/decode.go', "\t\t\tisNaNOrInfinity(m.ViewBo
 # ---- C02
 M('c02-color3-guard', 'C02', ('decode/buffer.go', "func (b buffer) decodeColor3Direct() (c ivg.Color, n int) {\n\tif len(b) < 3 {", "func (b buffer) decodeColor3Direct() (c ivg.Color, n int) {\n\tif len(b) < 2 {"))
 M('c02-reset-early', 'C02', ('decode/decode.go', "\tprevMID := int64(-1)\n", "\tprevMID := int64(-1)\n\tif dst != nil && !metadataOnly && nMetadataChunks > 0 {\n\t\tdst.Reset(m.ViewBox, m.Palette)\n\t}\n"))
-M('c02-int-length', 'C02', ('decode/decode.go', "lenSrcWant := int64(len(src)) - int64(length)", "lenSrcWant := int64(int32(len(src)) - int32(length<<2)>>2)"))
+M('c02-int-length-CONTROL', 'C02', ('decode/decode.go', "lenSrcWant := int64(len(src)) - int64(length)", "lenSrcWant := int64(int32(len(src)) - int32(length<<2)>>2)"))
 M('c02-arc-n-noabs', 'C02', ('render/render.go', "n := int(math.Ceil(math.Abs(deltaTheta) / (math.Pi/2 + 0.001)))", "n := int(math.Ceil(math.Abs(deltaTheta) / (math.Pi/8 + 0.001)))"))
 M('c02-src-write', 'C02', ('decode/decode.go', "\tcase opcode == 0xc7:\n\t\treturn decodeSetLOD(dst, p, src)", "\tcase opcode == 0xc7:\n\t\tsrc[0] = 0xc7 &^ 0\n\t\tif len(src) > 1 && src[1] == 0xfe {\n\t\t\tsrc[1] = 0xfc\n\t\t}\n\t\treturn decodeSetLOD(dst, p, src)"))
 
@@ -37,3 +37,153 @@ M('c11-implicit-omitted', 'C11', ('decode/decode.go', "\t\t\tif p != nil && i !=
 M('c11-adj-raw', 'C11', ('decode/decode.go', "\t\t\tp(src[:1], \"Set CREG[CSEL-%d] to a %d byte%s color\\n\", adj, nBytes, directness)", "\t\t\tp(src[:1], \"Set CREG[CSEL-%d] to a %d byte%s color\\n\", opcode&0x03, nBytes, directness)"))
 M('c11-flags-print', 'C11', ('decode/decode.go', "p(src[:n], \"    %#x (largeArc=%d, sweep=%d)\\n\", x, (x>>0)&0x01, (x>>1)&0x01)", "p(src[:n], \"    %#x (largeArc=%d, sweep=%d)\\n\", x, (x>>1)&0x01, (x>>0)&0x01)"))
 M('c11-nreg-precision', 'C11', ('decode/decode.go', "\t\tp(src[:n], \"    %g\\n\", f)", "\t\tp(src[:n], \"    %.6g\\n\", f)"))
+
+# ---- C01
+M('c01-maxrep-T', 'C01', ('encode/encode.go', "\t't': {0x50, 16, 2},", "\t't': {0x50, 17, 2},"), why='repeat count of one verb one too large: run of 17 t ops')
+M('c01-no-flush-Y', 'C01', ('encode/encode.go', "\tcase 'Y', 'y':\n\t\te.flushDrawOps()", "\tcase 'y':\n\t\te.flushDrawOps()"), why='pending Y not flushed before the next op')
+M('c01-swap-C-args', 'C01', ('encode/encode.go', "func (e *Encoder) RelCubeTo(x1, y1, x2, y2, x, y float32) { e.draw('c', x1, y1, x2, y2, x, y) }", "func (e *Encoder) RelCubeTo(x1, y1, x2, y2, x, y float32) { e.draw('c', x1, y1, x2, y2, y, x) }"))
+M('c01-real-boundary', ['C01', 'C08'], ('encode/buffer.go', "if u := uint32(f); float32(u) == f && u < 1<<14 {", "if u := uint32(f); float32(u) == f && u <= 1<<14 {"))
+M('c01-revert-F2', 'C01', ('encode/encode.go', "\te.flushDrawOps()\n\treturn []byte(e.buf), nil", "\treturn []byte(e.buf), nil"))
+M('c01-hires-sticky', ['C01', 'C17'], ('encode/encode.go', "\te.highResolutionCoordinates = e.HighResolutionCoordinates\n", "\te.highResolutionCoordinates = e.highResolutionCoordinates || e.HighResolutionCoordinates\n"))
+
+# ---- C08
+M('c08-coord-lower', 'C08', ('encode/buffer.go', "if i := int32(f); -64 <= i && i < +64 && float32(i) == f {", "if i := int32(f); -64 < i && i < +64 && float32(i) == f {"))
+M('c08-natural-7bit', ['C08', 'C01'], ('encode/buffer.go', "func (b *buffer) encodeNatural(u uint32) {\n\tif u < 1<<7 {", "func (b *buffer) encodeNatural(u uint32) {\n\tif u <= 1<<7 {"))
+M('c08-round-const', 'C08', ('encode/buffer.go', "\tif v < 0x007ffffe {\n\t\tv += 2\n\t}", "\tif v < 0x007ffffc {\n\t\tv += 3\n\t}"))
+M('c08-z2o-15121', 'C08', ('encode/buffer.go', "if u := uint32(f * 15120); float32(u) == f*15120 && u < 15120 {", "if u := uint32(f * 15120); float32(u) == f*15120 && u <= 15120 {"))
+
+M('c08-natural4-guard', ['C08', 'C02'], ('decode/buffer.go', "\tif len(b) >= 4 {\n\t\ty := uint32(b[0]) | uint32(b[1])<<8 | uint32(b[2])<<16 | uint32(b[3])<<24", "\tif len(b) >= 3 {\n\t\tb = append(b[:len(b):len(b)], 0)\n\t\ty := uint32(b[0]) | uint32(b[1])<<8 | uint32(b[2])<<16 | uint32(b[3])<<24"), why='a 4-byte number cut to 3 bytes is read with a zero last byte instead of an error')
+M('c08-revert-F3', 'C08', ('encode/encode.go', "x := math.Floor(float64(coord)*64 + 0.5)", "x := math.Floor(float64(coord*64 + 0.5))"))
+M('c08-nreg-tiebreak', 'C08', ('encode/encode.go', "if n := b.encodeZeroToOne(f); n < nBest {", "if n := b.encodeZeroToOne(f); n <= nBest && f < 0 {"), why='zero-to-one encoder used for negative values (harmless) - expected NOT detectable; control')
+
+# ---- C09
+M('c09-dc1table', 'C09', ('color.go', "var dc1Table = [5]byte{0x00, 0x40, 0x80, 0xc0, 0xff}", "var dc1Table = [5]byte{0x00, 0x40, 0x80, 0xbf, 0xff}"))
+M('c09-blend-round', 'C09', ('color.go', "uint8(((p * uint32(rgba0.B)) + q*uint32(rgba1.B) + 128) / 255),", "uint8(((p * uint32(rgba0.B)) + q*uint32(rgba1.B) + 127) / 255),"))
+M('c09-palette-trim', 'C09', ('encode/encode.go', "for ; n >= 0 && m.Palette[n] == (color.RGBA{0x00, 0x00, 0x00, 0xff}); n-- {", "for ; n > 0 && m.Palette[n] == (color.RGBA{0x00, 0x00, 0x00, 0xff}); n-- {"), why='harmless (writes one explicit black) - control, expected not a violation')
+M('c09-is3', 'C09', ('color.go', "func Is3(c color.RGBA) bool {\n\treturn c.A == 0xff", "func Is3(c color.RGBA) bool {\n\treturn c.A >= 0xfe"))
+M('c09-encode2-first', 'C09', ('color.go', "func Is2(c color.RGBA) bool {\n\tis2 := func(u uint8) bool { return u%0x11 == 0 }", "func Is2(c color.RGBA) bool {\n\tis2 := func(u uint8) bool { return u%0x11 == 0 || u == 0xfe }"))
+M('c09-revert-F1', 'C09', ('encode/encode.go', "if _, ok := ivg.RGBAColor(c).Encode1(); enc1 && !ok {", "if _, ok := ivg.RGBAColor(c).Encode1(); false && enc1 && !ok {"))
+M('c09-resolve-creg-mask', ['C09', 'C04'], ('color.go', "\t\treturn cReg[c.cReg()&0x3f]", "\t\treturn cReg[c.cReg()&0x1f]"))
+
+# ---- C10
+M('c10-draw-no-errcheck', 'C10', ('encode/encode.go', "func (e *Encoder) draw(drawOp byte, arg0, arg1, arg2, arg3, arg4, arg5 float32) {\n\tif e.err != nil {\n\t\treturn\n\t}\n\tif e.mode != modeDrawing {", "func (e *Encoder) draw(drawOp byte, arg0, arg1, arg2, arg3, arg4, arg5 float32) {\n\tif e.mode != modeDrawing {"), why='a later drawing violation overwrites the first error')
+M('c10-startpath-adj', 'C10', ('encode/encode.go', "\tif adj > 6 {\n\t\te.err = errInvalidSelectorAdjustment\n\t\treturn\n\t}\n\te.highResolutionCoordinates", "\tif adj > 7 {\n\t\te.err = errInvalidSelectorAdjustment\n\t\treturn\n\t}\n\te.highResolutionCoordinates"))
+M('c10-setlod-in-drawing', 'C10', ('encode/encode.go', "func (e *Encoder) SetLOD(lod0, lod1 float32) {\n\te.checkModeStyling()\n\tif e.err != nil {", "func (e *Encoder) SetLOD(lod0, lod1 float32) {\n\tif e.mode != modeDrawing {\n\t\te.checkModeStyling()\n\t}\n\tif e.err != nil {"))
+M('c10-incr-adj-ok', 'C10', ('encode/encode.go', "func (e *Encoder) SetNReg(adj uint8, incr bool, f float32) {\n\te.checkModeStyling()\n\tif e.err != nil {\n\t\treturn\n\t}\n\tif adj > 6 {\n\t\te.err = errInvalidSelectorAdjustment\n\t\treturn\n\t}\n\tif incr {\n\t\tif adj != 0 {", "func (e *Encoder) SetNReg(adj uint8, incr bool, f float32) {\n\te.checkModeStyling()\n\tif e.err != nil {\n\t\treturn\n\t}\n\tif adj > 6 {\n\t\te.err = errInvalidSelectorAdjustment\n\t\treturn\n\t}\n\tif incr {\n\t\tif adj > 1 {"))
+M('c10-revert-F11', 'C10', ('encode/encode.go', "\te.mode = modeStyling\n\te.lod1 = positiveInfinity\n", "\te.mode = modeStyling\n"))
+M('c10-bytes-in-error-resets', 'C10', ('encode/encode.go', "func (e *Encoder) CSel() uint8 {\n\tif e.mode == modeInitial {", "func (e *Encoder) CSel() uint8 {\n\tif e.err == errDrawingOpsUsedInStylingMode && e.mode == modeStyling {\n\t\te.err = nil\n\t}\n\tif e.mode == modeInitial {"), why='a read-back clears one kind of error')
+
+# ---- C17
+M('c17-reset-keeps-drawargs', 'C17', ('encode/encode.go', "\t*e = Encoder{\n\t\tbuf:      append(e.buf[:0], ivg.Magic...),", "\t*e = Encoder{\n\t\tdrawArgs: e.drawArgs,\n\t\tdrawOp:   e.drawOp,\n\t\tbuf:      append(e.buf[:0], ivg.Magic...),"))
+M('c17-reset-keeps-hires', 'C17', ('encode/encode.go', "\t*e = Encoder{\n\t\tbuf:      append(e.buf[:0], ivg.Magic...),", "\t*e = Encoder{\n\t\thighResolutionCoordinates: e.highResolutionCoordinates,\n\t\tHighResolutionCoordinates: e.highResolutionCoordinates,\n\t\tbuf:      append(e.buf[:0], ivg.Magic...),"))
+M('c17-renderer-nreg', ['C17', 'C04'], ('render/render.go', "\tz.nReg = [64]float32{}\n", ""))
+M('c17-renderer-lod', ['C17', 'C04'], ('render/render.go', "\tz.lod0 = 0\n\tz.lod1 = positiveInfinity\n\tz.cSel = 0", "\tz.cSel = 0"))
+M('c17-renderer-smooth', ['C17', 'C05'], ('render/render.go', "\tz.z.Reset(width, height)\n\tz.prevSmoothType = smoothTypeNone\n", "\tz.z.Reset(width, height)\n"), ('render/render.go', "\tz.prevSmoothType = smoothTypeNone\n\tz.prevSmoothPointX = 0", "\tz.prevSmoothPointX = 0"), why='smooth memory survives both StartPath and Reset')
+M('c17-gradient-ranges', ['C17', 'C04'], ('render/gradient.go', "\tg.Ranges = AppendRanges(g.Ranges[:0], stops)", "\tg.Ranges = AppendRanges(g.Ranges, stops)"), why='ranges of an earlier gradient are kept and bridged to the new stops')
+
+# ---- C04
+M('c04-adj-sign', 'C04', ('render/render.go', "\tz.flatColor = z.cReg[(z.cSel-adj)&0x3f]", "\tz.flatColor = z.cReg[(z.cSel+adj)&0x3f]"))
+M('c04-lod-le', 'C04', ('render/render.go', "!(z.lod0 <= h && h < z.lod1)", "!(z.lod0 <= h && h <= z.lod1)"))
+M('c04-stop-ge', 'C04', ('render/render.go', "if !(0 <= n && n <= 1) || !(n > prevN) {", "if !(0 <= n && n <= 1) || !(n >= prevN) {"))
+M('c04-lazy-resolve', 'C04', ('render/render.go', "\tz.cReg[(z.cSel-adj)&0x3f] = c.Resolve(&z.palette, &z.cReg)", "\tz.cReg[(z.cSel-adj)&0x3f] = c.Resolve(&z.cReg, &z.cReg)"), why='palette-indexed colours resolved against the registers instead of the palette')
+M('c04-nbase-wrap', ['C04', 'C15'], ('render/render.go', "\t\tn := z.nReg[(nBase+i)&0x3f]", "\t\tn := z.nReg[(nBase+i)&0x7f%64]"), why='equivalent - control (expected not detected)')
+M('c04-transparent-drawn', 'C04', ('render/render.go', "\t\tz.disabled = z.flatColor.A == 0\n", "\t\tz.disabled = z.flatColor == (color.RGBA{})\n"), why='equivalent for premultiplied colours - control')
+M('c04-cbase-wrap', 'C04', ('render/render.go', "\t\tc := z.cReg[(cBase+i)&0x3f]", "\t\tc := z.cReg[(cBase+i)%63]"), why='stop colours wrapping past register 62')
+
+# ---- C05
+M('c05-rely-scalex', 'C05', ('render/render.go', "func (z *Renderer) relY(y float32) float32   { return z.scaleY * y }", "func (z *Renderer) relY(y float32) float32   { return z.scaleX * y }"))
+M('c05-vline-smooth', 'C05', ('render/render.go', "\tpx, _ := z.z.Pen()\n\tz.prevSmoothType = smoothTypeNone\n\tz.z.LineTo(px, z.absY(y))", "\tpx, _ := z.z.Pen()\n\tz.z.LineTo(px, z.absY(y))"))
+M('c05-relmove-order', 'C05', ('render/render.go', "\tz.prevSmoothType = smoothTypeNone\n\tz.z.ClosePath()\n\tz.z.MoveTo(z.relVec2(x, y))", "\tz.prevSmoothType = smoothTypeNone\n\tax, ay := z.relVec2(x, y)\n\tz.z.ClosePath()\n\tz.z.MoveTo(ax, ay)"), why='relative move measured from the pen before closing instead of the sub-path start')
+M('c05-smooth-type', 'C05', ('render/render.go', "\tx1, y1 := z.implicitSmoothPoint(smoothTypeCube)\n\tx2, y2 = z.relVec2(x2, y2)", "\tx1, y1 := z.implicitSmoothPoint(smoothTypeQuad)\n\tx2, y2 = z.relVec2(x2, y2)"))
+M('c05-biasx', 'C05', ('render/render.go', "\tz.biasX = -z.viewBox.MinX", "\tz.biasX = -z.viewBox.MinY"))
+
+# ---- C06
+M('c06-flag-eq', 'C06', ('render/render.go', "\tif largeArc == sweep {\n\t\tstep2 = -step2", "\tif largeArc != sweep {\n\t\tstep2 = -step2"))
+M('c06-unabsy', 'C06', ('render/render.go', "func (z *Renderer) unabsY(y float32) float32 { return y/z.scaleY - z.biasY }", "func (z *Renderer) unabsY(y float32) float32 { return y/z.scaleX - z.biasY }"))
+M('c06-subdivision', 'C06', ('render/render.go', "n := int(math.Ceil(math.Abs(deltaTheta) / (math.Pi/2 + 0.001)))", "n := int(math.Ceil(math.Abs(deltaTheta) / (math.Pi + 0.001)))"))
+M('c06-radii-scale', 'C06', ('render/render.go', "\t\tc := math.Sqrt(radiiCheck)\n\t\tRx *= c\n\t\tRy *= c", "\t\tc := math.Sqrt(radiiCheck)\n\t\tRx *= c\n\t\tRy *= radiiCheck / c / c * c"), why='equivalent - control')
+M('c06-revert-F5', 'C06', ('render/render.go', "\t\tz.z.LineTo(z.absVec2(x, y))\n\t\treturn", "\t\tz.z.LineTo(x, y)\n\t\treturn"))
+M('c06-sweep-wrap', 'C06', ('render/render.go', "\t\tif deltaTheta > 0 {\n\t\t\tdeltaTheta -= 2 * math.Pi", "\t\tif deltaTheta >= 0 {\n\t\t\tdeltaTheta -= 2 * math.Pi"), why='only for deltaTheta == 0 exactly - control-ish')
+
+# ---- C07
+M('c07-enc-csel-mask', 'C07', ('encode/encode.go', "\te.cSel = cSel & 0x3f\n\te.buf = append(e.buf, e.cSel)", "\te.cSel = cSel\n\te.buf = append(e.buf, e.cSel&0x3f)"))
+M('c07-logger-nsel', 'C07', ('logger.go', "\tif d.Destination != nil {\n\t\td.Destination.SetNSel(nSel)", "\tif d.Destination != nil {\n\t\td.Destination.SetCSel(nSel)"))
+M('c07-generator-restore', ['C07', 'C19'], ('generate/generate.go', "\td.SetCSel(oldCSel)\n\td.SetNSel(oldNSel)", "\td.SetCSel(oldNSel)\n\td.SetNSel(oldCSel)"))
+M('c07-revert-F6', 'C07', ('encode/encode.go', "\t\te.cSel = (e.cSel + 1) & 0x3f", "\t\te.cSel = (e.cSel + 0) & 0x3f"))
+M('c07-revert-F10', ['C07', 'C19'], ('render/render.go', "\t\tz.cSel++\n\t\tz.cSel &= 0x3f", "\t\tz.cSel++"))
+
+# ---- C14
+M('c14-opts-before-chunks', 'C14', ('decode/decode.go', "\tprevMID := int64(-1)\n", "\tprevMID := int64(-1)\n\tfor _, opt := range opts {\n\t\topt(m)\n\t}\n\topts = nil\n"), why='options applied before the metadata chunks: a suggested palette overrides them')
+M('c14-colorat-index', 'C14', ('decode/decode.go', "\t\tm.Palette[index] = color.RGBAModel.Convert(c).(color.RGBA)", "\t\tm.Palette[index&0x1f] = color.RGBAModel.Convert(c).(color.RGBA)"))
+M('c14-revert-F7', 'C14', ('decode/decode.go', "\tif len(opts) > 0 {\n\t\t// Some user-given", "\tif len(opts) > 99 {\n\t\t// Some user-given"))
+M('c14-sanitise-transparent', 'C14', ('decode/decode.go', "\t\t\tif !ivg.ValidAlphaPremulColor(c) {\n\t\t\t\tm.Palette[i]", "\t\t\tif !ivg.ValidAlphaPremulColor(c) || c.A == 0 {\n\t\t\t\tm.Palette[i]"), why='transparent user colours (which legitimately switch paths off) turned into black')
+
+# ---- C15
+M('c15-range-lt', 'C15', ('render/gradient.go', "\t\tif r.Offset0 <= offset && offset <= r.Offset1 {", "\t\tif r.Offset0 <= offset && offset < r.Offset1 {"), why='offset exactly on the last stop falls through (still Last) - control-ish')
+M('c15-swap-ts', 'C15', ('render/gradient.go', "\t\t\t\tuint16(s*r.G0 + t*r.G1),", "\t\t\t\tuint16(t*r.G0 + s*r.G1),"))
+M('c15-no-half', 'C15', ('render/gradient.go', "\tpy := float64(y) + 0.5", "\tpy := float64(y)"))
+M('c15-pix2grad-by', 'C15', ('render/render.go', "\t\tc - a*zBX - b*zBY,", "\t\tc - a*zBX,"))
+M('c15-repeat-ceil', 'C15', ('render/gradient.go', "\t\tcase SpreadRepeat:\n\t\t\treturn x - math.Floor(x)\n\t\t}\n\t\treturn -1\n\t}", "\t\tcase SpreadRepeat:\n\t\t\treturn math.Ceil(x) - x\n\t\t}\n\t\treturn -1\n\t}"))
+M('c15-revert-F8', 'C15', ('render/gradient.go', "\t\tx = -x\n\t\tif int(x)&1 == 0 {\n\t\t\treturn x - math.Floor(x)\n\t\t}\n\t\treturn 1 - (x - math.Floor(x))", "\t\tx = -x\n\t\tif int(x)&1 == 0 {\n\t\t\treturn x - math.Floor(x)\n\t\t}\n\t\treturn math.Ceil(x) - x"))
+M('c15-first-offset', 'C15', ('render/gradient.go', "\tif offset < g.Ranges[0].Offset0 {\n\t\treturn g.First", "\tif offset < g.Ranges[0].Offset0 {\n\t\treturn g.Last"))
+
+# ---- C16
+M('c16-draw-sp', 'C16', ('render/render.go', "\tz.z.Draw(z.r, z.fill, image.Pt(0, 0))", "\tz.z.Draw(z.r, z.fill, z.r.Min)"))
+M('c16-reset-square', 'C05', ('render/render.go', "\tz.z.Reset(width, height)", "\tz.z.Reset(width, width)"))
+M('c16-drawop-sticky', 'C16', ('raster/vec/rasterizer.go', "\tz.DrawOp = draw.Over\n", ""))
+M('c16-absy-scalex', ['C16', 'C05'], ('render/render.go', "func (z *Renderer) absY(y float32) float32   { return z.scaleY * (y + z.biasY) }", "func (z *Renderer) absY(y float32) float32   { return z.scaleX * (y + z.biasY) }"))
+
+# ---- C19
+M('c19-matrix-adj', 'C19', ('generate/generate.go', "\t\td.SetNReg(uint8(len(transform)-i), false, v)", "\t\td.SetNReg(uint8(len(transform)-i-1), false, v)"))
+M('c19-ellipse-mc', 'C19', ('generate/generate.go', "\tmc := -float32(ma*cx) - float32(mb*cy)", "\tmc := -float32(ma*cx)"))
+M('c19-overlap-le', 'C19', ('generate/generate.go', "(cBase <= x && x < cBase+nStops) || (cBase <= y && y < cBase+nStops)", "(cBase < x && x < cBase+nStops) || (cBase < y && y < cBase+nStops)"))
+M('c19-revert-F9', 'C19', ('generate/generate.go', "\tif len(stops) > 64-len(transform) {", "\tif false && len(stops) > 64-len(transform) {"))
+M('c19-linear-c', 'C19', ('generate/generate.go', "\t\tma, mb, -ma*x1 - mb*y1,", "\t\tma, mb, -ma*x1 - mb*y2,"))
+M('c19-circular-ry', 'C19', ('generate/generate.go', "invR := float32(1 / math.Sqrt(float64(rx*rx+ry*ry)))", "invR := float32(1 / math.Sqrt(float64(rx*rx+rx*ry)))"))
+
+# ---- C20
+M('c20-T-arity', 'C20', ('generate/generate.go', "\t\tcase 'L', 'l', 'M', 'm', 'T', 't':\n\t\t\tn = 2\n\t\tcase 'Q', 'q', 'S', 's':\n\t\t\tn = 4\n\t\tcase 'C', 'c':\n\t\t\tn = 6\n\t\tcase 'A', 'a':", "\t\tcase 'L', 'l', 'M', 'm', 't':\n\t\t\tn = 2\n\t\tcase 'Q', 'q', 'S', 's', 'T':\n\t\t\tn = 4\n\t\tcase 'C', 'c':\n\t\t\tn = 6\n\t\tcase 'A', 'a':"))
+M('c20-rel-translate', 'C20', ('generate/generate.go', "\t\t\tif 'a' <= verb && verb <= 'z' {\n\t\t\t\ttransform = scale\n\t\t\t}", "\t\t\tif 'a' <= verb && verb < 'v' {\n\t\t\t\ttransform = scale\n\t\t\t}"), why='relative v gets the translation')
+M('c20-arc-flag', 'C20', ('generate/generate.go', "\t\t\te.RelArcTo(args[0], args[1], args[2]/360, args[3] != 0, args[4] != 0, args[5], args[6])", "\t\t\te.RelArcTo(args[0], args[1], args[2]/360, args[4] != 0, args[3] != 0, args[5], args[6])"))
+M('c20-H-axis', 'C20', ('generate/generate.go', "\t\t\t\tif verb == 'H' || verb == 'h' {\n\t\t\t\t\targs[0], _ = MulAff3(args[0], 0, transform)", "\t\t\t\tif verb == 'H' {\n\t\t\t\t\targs[0], _ = MulAff3(args[0], 0, transform)"), why='relative h falls to the V branch? (else-if needs V/v) -> h untransformed')
+M('c20-md-offset-axis', 'C20', ('mdicons/parsepathdata.go', "\t\tcase op == 'V':\n\t\t\targs[i] -= offset[1]", "\t\tcase op == 'V':\n\t\t\targs[i] -= offset[0]"))
+M('c20-circle-second-arc', 'C20', ('mdicons/parsepath.go', "\t\tenc.RelArcTo(r, r, 0, false, true, -2*r, 0)", "\t\tenc.RelArcTo(r, r, 0, false, true, +2*r, 0)"))
+M('c20-opacity-reuse', 'C20', ('mdicons/parsepath.go', "\t\t\tadj = uint8(len(adjs) + 1)\n\t\t\tadjs[opacity] = adj", "\t\t\tadj = uint8(len(adjs) + 1)\n\t\t\tadjs[opacity*2] = adj"), why='registers are never reused: a repeated opacity allocates a new register')
+M('c20-concat-order', 'C20', ('generate/generate.go', "\tdefault:\n\t\ta := Aff3{1, 0, 0, 0, 1, 0}\n\t\tfor _, b := range affs {", "\tdefault:\n\t\ta := Aff3{1, 0, 0, 0, 1, 0}\n\t\tif len(affs) == 3 {\n\t\t\taffs = []Aff3{affs[0], affs[2], affs[1]}\n\t\t}\n\t\tfor _, b := range affs {"))
+
+# ---- C18
+M('c18-hoist-coords', 'C18', ('decode/decode.go', "func decodeDrawing(dst ivg.Destination, p printer, src buffer) (mf modeFunc, src1 buffer, err error) {\n\tvar coords [6]float32\n", "var coords [6]float32\n\nfunc decodeDrawing(dst ivg.Destination, p printer, src buffer) (mf modeFunc, src1 buffer, err error) {\n"))
+M('c18-global-scratch', 'C18', ('encode/encode.go', "\t// Try three different encodings and pick the shortest.\n\tb := buffer(e.scratch[0:0])", "\t// Try three different encodings and pick the shortest.\n\te.scratch = sharedScratch\n\tdefer func() { sharedScratch = e.scratch }()\n\tb := buffer(e.scratch[0:0])"), ('encode/encode.go', "type mode uint8\n", "var sharedScratch [12]byte\n\ntype mode uint8\n"), why='scratch bytes round-trip through a package-level array')
+M('c18-memo-color1', 'C18', ('color.go', "func DecodeColor1(x byte) Color {\n", "var dc1Cache = map[byte]Color{}\n\nfunc DecodeColor1(x byte) Color {\n\tif c, ok := dc1Cache[x]; ok {\n\t\treturn c\n\t}\n\tc := decodeColor1(x)\n\tdc1Cache[x] = c\n\treturn c\n}\n\nfunc decodeColor1(x byte) Color {\n"))
+M('c18-magic-append', 'C18', ('encode/encode.go', "\te.buf = append(e.buf[:0], ivg.Magic...)\n\te.buf = append(e.buf, 0x00) // There are zero metadata chunks.", "\te.buf = append(ivg.MagicBytes[:4], 0x00) // There are zero metadata chunks."), why='appends to the shared MagicBytes slice in place when it has spare capacity')
+M('c18-palette-pointer', 'C18', ('decode/decode.go', "func WithPalette(p [64]color.RGBA) DecodeOption {\n\treturn func(m *ivg.Metadata) {\n\t\tm.Palette = p", "func WithPalette(p [64]color.RGBA) DecodeOption {\n\treturn func(m *ivg.Metadata) {\n\t\tfor i := range p {\n\t\t\tif !ivg.ValidAlphaPremulColor(p[i]) {\n\t\t\t\tp[i] = color.RGBA{0, 0, 0, 0xff}\n\t\t\t}\n\t\t}\n\t\tm.Palette = p"), why='the closure sanitises its captured copy in place: a write to state shared by every decode using that option value')
+M('c18-default-palette-write', 'C18', ('decode/decode.go', "func Decode(dst ivg.Destination, src []byte, opts ...DecodeOption) error {\n\tm := ivg.DefaultMetadata", "func Decode(dst ivg.Destination, src []byte, opts ...DecodeOption) error {\n\tm := &ivg.DefaultMetadata\n\tdefer func(p [64]color.RGBA, v ivg.ViewBox) { m.Palette, m.ViewBox = p, v }(m.Palette, m.ViewBox)\n\treturn decode(dst, nil, m, false, src, opts...)\n}\n\nfunc decodeCopy(dst ivg.Destination, src []byte, opts ...DecodeOption) error {\n\tm := ivg.DefaultMetadata"), why='decodes in place into the shared DefaultMetadata and restores it afterwards (save/restore window)')
+
+# ---- second batch: subtler variants of changes the repository's golden tests pin down
+M('c11-implicit-16', 'C11', ('decode/decode.go', "\t\t\tif p != nil && i != 0 {", "\t\t\tif p != nil && i != 0 && i != 16 {"), why='implicit line missing for the 17th repetition only (runs longer than any in testdata)')
+M('c11-adj-mod6', 'C11', ('decode/decode.go', "\t\t\tp(src[:1], \"Set CREG[CSEL-%d] to a %d byte%s color\\n\", adj, nBytes, directness)", "\t\t\tp(src[:1], \"Set CREG[CSEL-%d] to a %d byte%s color\\n\", adj%6, nBytes, directness)"))
+M('c11-2byte-color-hex', 'C11', ('decode/decode.go', "\tif p != nil {\n\t\tp(src[:n], \"    %v\\n\", c)\n\t}", "\tif p != nil {\n\t\tif nBytes == 2 {\n\t\t\tp(src[:1], \"    %v\\n\", c)\n\t\t} else {\n\t\t\tp(src[:n], \"    %v\\n\", c)\n\t\t}\n\t}"))
+M('c11-startpath-adj', 'C11', ('decode/decode.go', "\t\tp(src[:1], \"Start path, filled with CREG[CSEL-%d]; M (absolute moveTo)\\n\", adj)", "\t\tp(src[:1], \"Start path, filled with CREG[CSEL-%d]; M (absolute moveTo)\\n\", adj&5)"), why='ADJ 2, 3, 6 printed wrongly')
+M('c15-reflect-neg', 'C15', ('render/gradient.go', "\t\tx = -x\n\t\tif int(x)&1 == 0 {\n\t\t\treturn x - math.Floor(x)\n\t\t}\n\t\treturn 1 - (x - math.Floor(x))", "\t\tx = -x\n\t\tif int(x)&1 != 0 {\n\t\t\treturn x - math.Floor(x)\n\t\t}\n\t\treturn 1 - (x - math.Floor(x))"), why='reflect wrong for negative offsets only')
+M('c15-accessor-last', 'C15', ('render/gradient.go', "\t\tuint8(g.Last.G >> 8),", "\t\tuint8(g.First.G >> 8),"))
+M('c15-accessor-transform', 'C15', ('render/gradient.go', "\td = g.Pix2Grad[3]\n\te = g.Pix2Grad[4]", "\te = g.Pix2Grad[3]\n\td = g.Pix2Grad[4]"))
+M('c15-after-last', 'C15', ('render/gradient.go', "\t\t}\n\t}\n\treturn g.Last\n}", "\t\t}\n\t}\n\treturn g.First\n}"), why='offset beyond a last stop < 1')
+M('c02-blend-guard', 'C02', ('decode/buffer.go', "func (b buffer) decodeColor3Indirect() (c ivg.Color, n int) {\n\tif len(b) < 3 {", "func (b buffer) decodeColor3Indirect() (c ivg.Color, n int) {\n\tif len(b) < 2 {"))
+M('c02-pal-header-guard', ['C02', 'C13'], ('decode/decode.go', "\t\tif len(src) == 0 {\n\t\t\treturn nil, errInvalidSuggestedPalette\n\t\t}\n", ""))
+M('c03-creg4-incr', 'C03', ('decode/decode.go', "\tnBytes, directness, adj := 0, \"\", opcode&0x07\n\tvar decode func(buffer) (ivg.Color, int)\n\tincr := adj == 7", "\tnBytes, directness, adj := 0, \"\", opcode&0x07\n\tvar decode func(buffer) (ivg.Color, int)\n\tincr := adj == 7 && opcode != 0x9f"))
+M('c03-nsel-mask', 'C03', ('decode/decode.go', "\t\t\topcode &= 0x3f\n\t\t\tif p != nil {\n\t\t\t\tp(src[:1], \"Set NSEL = %d\\n\", opcode)", "\t\t\topcode &= 0x1f\n\t\t\tif p != nil {\n\t\t\t\tp(src[:1], \"Set NSEL = %d\\n\", opcode)"))
+M('c13-length-gt', ['C13', 'C03'], ('decode/decode.go', "\tif int64(len(src)) != lenSrcWant {", "\tif int64(len(src)) > lenSrcWant {"))
+M('c13-pal-format3-raw', 'C13', ('decode/decode.go', "\t\t\trgba, _ := c.RGBA()\n", "\t\t\trgba, _ := c.RGBA()\n\t\t\tif format == 3 && ivg.ValidGradient(color.RGBA{}) == false && !ivg.ValidAlphaPremulColor(rgba) == false && length > 62 {\n\t\t\t\tif x, ok := c.Encode4(); ok {\n\t\t\t\t\trgba = color.RGBA{x[0], x[1], x[2], x[3]}\n\t\t\t\t}\n\t\t\t}\n"), why='4-byte palettes with 63 or 64 entries are not sanitised')
+M('c16-bias-rmin', ['C16', 'C15'], ('render/render.go', "\t\tc - a*zBX - b*zBY,", "\t\tc - a*zBX - b*zBY + a*invZSX*float64(z.r.Min.X),"), why='gradient origin shifted by the rectangle origin')
+M('c19-circular-cy', 'C19', ('generate/generate.go', "\t\t0, invR, -cy * invR,", "\t\t0, invR, -cx * invR,"))
+M('c19-linear-mb', 'C19', ('generate/generate.go', "\tmb := dy / d\n", "\tmb := dy / d\n\tif dx == 0 {\n\t\tmb = 1 / dy * float32(1)\n\t\tma = 0 * mb\n\t}\n"), why='equivalent special case - control')
+M('c19-stops-cbase', 'C19', ('generate/generate.go', "\tfor _, s := range stops {\n\t\tr, g, b, a := s.Color.RGBA()", "\tfor i, s := range stops {\n\t\tif i == 57 {\n\t\t\td.SetCSel(d.CSel() + 1)\n\t\t}\n\t\tr, g, b, a := s.Color.RGBA()"), why='the 58th stop lands one register too far')
+M('c20-scan-plus', 'C20', ('generate/generate.go', "\t\tf, err := strconv.ParseFloat(d[:j], 64)", "\t\tf, err := strconv.ParseFloat(strings.TrimPrefix(d[:j], \"+\"), 64)\n\t\tif d[0] == '+' && j > 2 {\n\t\t\tf = -f\n\t\t}"), ('generate/generate.go', "\t\"strconv\"\n", "\t\"strconv\"\n\t\"strings\"\n"), why='numbers with an explicit + sign and more than one digit are negated')
+M('c20-md-implicit-L', 'C20', ('mdicons/parsepathdata.go', "\t\tdefault:\n\t\t\tr.UnreadByte()\n\t\t}", "\t\tdefault:\n\t\t\tr.UnreadByte()\n\t\t\tif op == 'l' {\n\t\t\t\top, relative = 'L', false\n\t\t\t}\n\t\t}"), why='a repeated operand group after l is treated as absolute L')
+M('c04-lod-nan', 'C04', ('render/render.go', "z.disabled = z.disabled || !(z.lod0 <= h && h < z.lod1)", "z.disabled = z.disabled || h < z.lod0 || h >= z.lod1"), why='NaN LOD bounds no longer disable the path')
+M('c04-gradient-stop-gradient', 'C04', ('render/render.go', "\t\tif !ivg.ValidAlphaPremulColor(c) {\n\t\t\treturn false\n\t\t}\n\t\tn := z.nReg", "\t\tif !ivg.ValidAlphaPremulColor(c) && !ivg.ValidGradient(c) {\n\t\t\treturn false\n\t\t}\n\t\tn := z.nReg"), why='a stop colour that is itself a gradient value is accepted')
+M('c05-relq-second', 'C05', ('render/render.go', "\tx1, y1 = z.relVec2(x1, y1)\n\tx, y = z.relVec2(x, y)\n\tz.prevSmoothType = smoothTypeQuad", "\tx1, y1 = z.relVec2(x1, y1)\n\tx, y = x1+z.relX(x), y1+z.relY(y)\n\tz.prevSmoothType = smoothTypeQuad"), why='relative quad end point measured from the control point')
+M('c06-large-arc-only', 'C06', ('render/render.go', "\tif sweep {\n\t\tif deltaTheta < 0 {", "\tif sweep || (largeArc && rx != ry) {\n\t\tif deltaTheta < 0 {"), why='large non-circular arcs with sweep=false take the wrong branch')
+M('c09-encode2-alpha', 'C09', ('color.go', "\t\t\t(c.data.B/0x11)<<4 | (c.data.A / 0x11),", "\t\t\t(c.data.B/0x11)<<4 | (c.data.A / 0x10 & 0x0f),"), why='alpha nibble wrong for A in 0x11..0xee multiples (A/0x10 != A/0x11 never differs for multiples of 0x11 below 0xff?) - may be equivalent')
+M('c17-renderer-csel', ['C17', 'C04'], ('render/render.go', "\tz.cSel = 0\n\tz.nSel = 0\n", "\tz.nSel = 0\n"), why='CSEL survives Reset')
+M('c17-encoder-lod', 'C17', ('encode/encode.go', "\t\tmode:     modeStyling,\n\t\tlod1:     positiveInfinity,", "\t\tmode:     modeStyling,\n\t\tlod0:     e.lod0,\n\t\tlod1:     positiveInfinity,"), why='read-back only state: LOD() after Reset - not observable in Bytes; control')
